@@ -409,20 +409,38 @@ func (c *fsCache) set(key string, entry []byte) error {
 		}
 	}
 	name := c.fn.FileName(key)
-	if err := c.root.MkdirAll(filepath.Dir(name), 0o755); err != nil {
+	dir := filepath.Dir(name)
+	if err := c.root.MkdirAll(dir, 0o755); err != nil {
 		return err
 	}
-	f, err := c.root.Create(name)
+	// Write a temporary file in the same directory and rename it into place:
+	// a concurrent reader, or a reader after a failed write or a crash, sees
+	// either the previous value or the new one, never a partial value.
+	tmp := filepath.Join(dir, tmpPrefix+rand.Text())
+	f, err := c.root.Create(tmp)
 	if err != nil {
 		return err
 	}
-	defer f.Close()
 	_, err = f.Write(entry)
+	if err == nil {
+		err = f.Sync()
+	}
+	if cerr := f.Close(); err == nil {
+		err = cerr
+	}
+	if err == nil {
+		err = c.root.Rename(tmp, name)
+	}
 	if err != nil {
+		_ = c.root.Remove(tmp)
 		return err
 	}
-	return f.Sync()
+	return nil
 }
+
+// tmpPrefix starts the name of the temporary files written by set; the dot is
+// outside the base64url alphabet, so it cannot collide with the file of a key.
+const tmpPrefix = ".tmp-"
 
 func (c *fsCache) Delete(key string) error {
 	ctx, cancel := context.WithTimeout(context.Background(), c.timeout)
@@ -493,6 +511,9 @@ func (c *fsCache) keys(prefix string) ([]string, error) {
 		}
 		if d.IsDir() {
 			return nil
+		}
+		if strings.HasPrefix(d.Name(), tmpPrefix) {
+			return nil // left behind by an interrupted write
 		}
 		key, err := c.fnk.KeyFromFileName(
 			strings.TrimPrefix(path, dirname+string(os.PathSeparator)),
